@@ -58,6 +58,8 @@ type aeCtx struct {
 	originOf       map[string]fieldOrigin
 	depIndex       map[string][]string
 	depIndexN      int
+	uintParse      map[string]bool // "Atoi(x)" terms produced by strconv.ParseUint(x, 10, ·)
+	signedParse    map[string]bool // ... by Atoi / ParseInt / another base
 	scope          func(w *world) bool // property-level scope: worlds outside it carry no obligation
 	compareHook    *ssa.Function       // tabulation: calls to this function yield an opaque sign term
 	allowCrossTerm bool
@@ -65,7 +67,7 @@ type aeCtx struct {
 }
 
 func newAECtx(p *Prog) *aeCtx {
-	c := &aeCtx{p: p, pools: map[string][]constant.Value{}, terms: map[string]*termInfo{}, cmaps: map[*ssa.Global]*constMap{}, loops: map[*ssa.Function][]*loop{}, lsum: map[string]*loopSummary{}, assumed: map[string]string{}, stepLimit: 400_000_000, orderedConst: map[string]bool{}, stagesUsed: map[string]bool{}, opaqueFns: map[*ssa.Function]string{}, opaqueAt: map[string]string{}, fdom: map[fieldOrigin]*fieldDomain{}, prodEx: map[*ssa.Function][]string{}, originOf: map[string]fieldOrigin{}}
+	c := &aeCtx{p: p, pools: map[string][]constant.Value{}, terms: map[string]*termInfo{}, cmaps: map[*ssa.Global]*constMap{}, loops: map[*ssa.Function][]*loop{}, lsum: map[string]*loopSummary{}, assumed: map[string]string{}, stepLimit: 400_000_000, orderedConst: map[string]bool{}, stagesUsed: map[string]bool{}, opaqueFns: map[*ssa.Function]string{}, opaqueAt: map[string]string{}, fdom: map[fieldOrigin]*fieldDomain{}, prodEx: map[*ssa.Function][]string{}, originOf: map[string]fieldOrigin{}, uintParse: map[string]bool{}, signedParse: map[string]bool{}}
 	if p.aeShared == nil {
 		c.collectConstMaps()
 		p.aeShared = &aeShared{cmaps: c.cmaps, fdom: c.fdom, prodEx: c.prodEx}
@@ -1953,6 +1955,24 @@ func (r *aeRun) evalCall(fr *frame, c *ssa.Call) any {
 		}
 		return boolC(r.cmp3o(fa, fb, false) == 0)
 	case "strconv.Atoi", "strconv.ParseInt", "strconv.ParseUint":
+		if _, mixed, ks := sidesOf(args[:1]); !mixed && len(ks) == 1 {
+			// which parser produced the term (the digit-string axiom F3 of feasible() holds for
+			// ParseUint in base 10 only: it accepts no sign)
+			pk := "Atoi(" + ks[0] + ")"
+			base10 := false
+			if len(com.Args) > 1 {
+				if bc, ok := com.Args[1].(*ssa.Const); ok && bc.Value != nil {
+					if v, ok := constant.Int64Val(constant.ToInt(bc.Value)); ok && v == 10 {
+						base10 = true
+					}
+				}
+			}
+			if name == "strconv.ParseUint" && base10 {
+				r.ctx.uintParse[pk] = true
+			} else {
+				r.ctx.signedParse[pk] = true
+			}
+		}
 		return r.derived("Atoi", args[:1], c.Type())
 	case "(*regexp.Regexp).FindStringSubmatch":
 		// the submatch list of a constant pattern: nil or one element per capture group; element k
